@@ -1,26 +1,29 @@
 #!/bin/bash
 # Runs the repository's stable baseline with the verification guard OFF (no --cfg mla_verif).
-# Prints one line per test and a summary; exit 0 iff all 70 stable tests passed.
+# exit 0 iff every test listed as stable in /root/.vp/BASELINE.json passed.
 cd /repo/$(cat /w/out/cargo_root.txt 2>/dev/null || echo .) || exit 2
 unset RUSTFLAGS
 export CARGO_NET_OFFLINE=true
 OUT=$(mktemp)
+JUNIT=target/nextest/pb/junit.xml
+rm -f "$JUNIT"
 if [ -f /w/lib/nextest.toml ] && command -v cargo-nextest >/dev/null; then
   cargo nextest run --workspace --no-fail-fast --tool-config-file pb:/w/lib/nextest.toml --profile pb --test-threads 8 --offline >"$OUT" 2>&1
 else
   cargo test --workspace --no-fail-fast --offline >"$OUT" 2>&1
 fi
-RC=$?
-grep -E "^\s+(PASS|FAIL|SIGABRT|SIGSEGV|TIMEOUT|LEAK)|^test .* \.\.\. |Summary|test result" "$OUT" | tail -n 100
-python3 - "$OUT" <<'PY'
-import json,sys,re
+grep -E "Summary|FAIL|test result|error(\[|:)" "$OUT" | tail -n 40
+python3 - "$OUT" "$JUNIT" <<'PY'
+import json,sys,re,os
+import xml.etree.ElementTree as ET
 stable=set(json.load(open('/root/.vp/BASELINE.json'))['stable_pass'])
-txt=open(sys.argv[1]).read()
 passed=set()
-for m in re.finditer(r'^\s+PASS\s+\[[^\]]*\]\s+(\S+)\s+(\S+)\s*$',txt,re.M):
-    passed.add(m.group(1)+'::'+m.group(2))
-if not passed:
-    # cargo test fallback: cannot map binaries reliably; report counts only
+if os.path.exists(sys.argv[2]):
+    for tc in ET.parse(sys.argv[2]).getroot().iter('testcase'):
+        bad=any(ch.tag in ('failure','error') for ch in tc)
+        if not bad: passed.add(tc.get('classname')+'::'+tc.get('name'))
+else:
+    txt=open(sys.argv[1]).read()
     ok=len(re.findall(r'^test .* \.\.\. ok$',txt,re.M)); bad=len(re.findall(r'^test .* \.\.\. FAILED$',txt,re.M))
     print(f"cargo test fallback: ok={ok} failed={bad}")
     sys.exit(0 if bad<=1 and ok>=70 else 1)
@@ -29,6 +32,6 @@ print(f"stable tests passed: {len(stable&passed)}/{len(stable)}")
 for m in missing: print("NOT PASSED:",m)
 sys.exit(1 if missing else 0)
 PY
-RC2=$?
+RC=$?
 rm -f "$OUT"
-exit $RC2
+exit $RC
